@@ -641,6 +641,11 @@ func init() {
 }
 
 func init() {
+	ext("github.com/jonboulle/clockwork.NewRealClock", "clockwork.NewRealClock(): a non-nil clock", func(c *ExtCtx) Val {
+		v := c.fresh(0, "clock")
+		c.st.assume("(distinct " + v.T + " 0)")
+		return v
+	})
 	ext("(github.com/jonboulle/clockwork.Clock).NewTicker", "clockwork.Clock.NewTicker: a non-nil ticker", func(c *ExtCtx) Val {
 		r := c.fresh(0, "ticker")
 		c.st.assume("(distinct " + r.T + " 0)")
